@@ -105,6 +105,9 @@ func ghostSort(ty string) (string, error) {
 func (se *specEnv) ghost(name string) (specVal, bool, error) {
 	g, ok := se.e.prog.cs.Ghosts[name]
 	if !ok {
+		if srt, isBuiltin := builtinGhosts[name]; isBuiltin {
+			return specVal{t: se.e.lookup(se.cur, "G$"+name, srt)}, true, nil
+		}
 		return specVal{}, false, nil
 	}
 	srt, err := ghostSort(g.Type)
@@ -334,6 +337,9 @@ func (se *specEnv) evalIdent(name string) (specVal, error) {
 	if v, ok := se.binds[name]; ok {
 		if v.cell {
 			t := derefType(v.typ)
+			if c, isConst := se.e.fvConst[v.t.S]; isConst {
+				return specVal{t: c, typ: t}, nil
+			}
 			rv := se.purify(se.e.loadPtr(se.cur, v.t, t))
 			se.typed(rv, t)
 			return specVal{t: rv, typ: t}, nil
@@ -738,6 +744,37 @@ func (se *specEnv) evalCall(n *SCall) (specVal, error) {
 		default:
 			return specVal{t: T(fmt.Sprintf("(str.in_re %s (re.+ (re.range \"0\" \"9\")))", as[0].t.S), SBool)}, nil
 		}
+	case "setenvOK":
+		as, err := args()
+		if err != nil {
+			return specVal{}, err
+		}
+		e.sc.DeclareFun("setenv_ok", []string{SString, SString}, SBool)
+		return specVal{t: App(SBool, "setenv_ok", as[0].t, as[1].t)}, nil
+	case "visited":
+		// visited(k): key k has already been produced by the (single) range-over-map loop of this function
+		as, err := args()
+		if err != nil {
+			return specVal{}, err
+		}
+		var rng *ssa.Range
+		for _, b := range e.fn.Blocks {
+			for _, ins := range b.Instrs {
+				if r, ok := ins.(*ssa.Range); ok {
+					if _, isMap := r.X.Type().Underlying().(*types.Map); isMap {
+						if rng != nil {
+							return specVal{}, fmt.Errorf("visited(): more than one range-over-map loop in %s", e.key)
+						}
+						rng = r
+					}
+				}
+			}
+		}
+		if rng == nil {
+			return specVal{}, fmt.Errorf("visited(): no range-over-map loop in %s", e.key)
+		}
+		vis := e.lookup(se.cur, e.rangeVisitedName(rng), e.rangeVisitedSort(rng))
+		return specVal{t: Select(vis, as[0].t)}, nil
 	case "closed":
 		as, err := args()
 		if err != nil {
